@@ -98,6 +98,9 @@ func RunC09(t *testing.T, tape *Tape) *Outcome {
 	// (the follow-up evaluation refreshes the root frame while leftovers of the
 	// cancelled run may still be parked), or only after they are gone
 	earlyFollow := entry == 3 && tape.Choose(2) == 1
+	// ... and its first step is a call given the SAME, already cancelled context:
+	// it must return the context's error and execute nothing
+	reuseCtx := earlyFollow && tape.Choose(2) == 1
 	// REPL style: an earlier, successful evaluation of the session has left
 	// goroutines behind (a second activation of the actor tree); the later
 	// cancellation concerns every interpreted goroutine
@@ -128,6 +131,7 @@ func RunC09(t *testing.T, tape *Tape) *Outcome {
 	var sink *host.Sink
 	var ret c09Ret
 	var ret2 c09Ret
+	var ret3 c09Ret // call given the already cancelled context again
 	var ctx context.Context
 	var eventsAtCancel int
 	var inter *interp.Interpreter
@@ -231,6 +235,10 @@ func RunC09(t *testing.T, tape *Tape) *Outcome {
 			}
 			r.MarkReturned()
 			ret.done.Store(true)
+			if reuseCtx && r.Cancelled.Load() {
+				ret3.v, ret3.err = inter.EvalWithContext(ctx, "host.Tick(950)")
+				ret3.done.Store(true)
+			}
 			if earlyFollow && r.Cancelled.Load() {
 				ret2.v, ret2.err = inter.EvalWithContext(context.Background(), "1+1")
 				ret2.done.Store(true)
@@ -447,6 +455,19 @@ func RunC09(t *testing.T, tape *Tape) *Outcome {
 		}
 		o.addV("C09", "I5", fmt.Sprintf("I5 goroutine-not-exited phase=%s body=%s", phase, kindOf(tk)),
 			"task %s (%s) never exited after the cancellation (state at end: %s)", tk.Name, kindOf(tk), r.describeTask(tk))
+	}
+	// I7: an evaluation given an already cancelled context
+	if reuseCtx && ret3.done.Load() {
+		o.FaultFired["evaluation-given-the-cancelled-context-again"]++
+		if ret3.err != wantErr {
+			o.addV("C09", "I7", "I7 expired-context wrong-error", "EvalWithContext given the already cancelled context returned %v (value %v), want %v", ret3.err, ret3.v, wantErr)
+		}
+		for _, e := range evs {
+			if e.Kind == host.KTick && e.Tag == 950 {
+				o.addV("C09", "I7", "I7 expired-context evaluation-executed", "the source given with an already cancelled context was executed")
+				break
+			}
+		}
 	}
 	// I6
 	if entry == 3 && (!r.aborting.Load() || ret2.done.Load()) {
